@@ -14,6 +14,7 @@ mod props {
     pub mod drift;
     pub mod mix;
     pub mod c10;
+    pub mod scope;
 }
 
 use common::{CaseOut, Tier};
@@ -29,6 +30,7 @@ fn prop_header(prop: &str) -> &'static str {
         "C03" | "C05" | "C12" => props::blocksgen::HEADER,
         "C01" | "C02" => props::drift::HEADER,
         "C11" | "C13" | "C14" | "C20" => props::mix::HEADER,
+        "C15" | "C16" => props::scope::HEADER,
         _ => panic!("unknown property {prop}"),
     }
 }
@@ -41,6 +43,8 @@ fn prop_gen(prop: &str, rng: &mut Rng, idx: usize, tier: Tier) -> CaseOut {
         "C13" => props::mix::generate_c13(rng, idx, tier),
         "C14" => props::mix::generate_c14(rng, idx, tier),
         "C20" => props::mix::generate_c20(rng, idx, tier),
+        "C15" => props::scope::generate_c15(rng, idx, tier),
+        "C16" => props::scope::generate_c16(rng, idx, tier),
         "C01" => props::drift::generate(rng, idx, tier, false),
         "C02" => props::drift::generate(rng, idx, tier, idx % 2 == 1),
         "C03" => props::blocksgen::generate(props::blocksgen::Mode::Blocks, rng, idx, tier),
